@@ -6,6 +6,7 @@ import (
 	"fmt"
 	"io"
 	"strings"
+	"unicode"
 )
 
 const (
@@ -146,7 +147,8 @@ func split(content string) ([]string, error) {
 			continue
 		}
 
-		if r >= 'A' && r <= 'Z' {
+		// 任何大写字母（不限于 ASCII）都开始一个新单词
+		if unicode.IsUpper(r) {
 			if buffer.Len() > 0 {
 				list = append(list, buffer.String())
 			}
